@@ -136,6 +136,9 @@ def same_literal(a, b) -> bool:
         return True
     if type(a) is not type(b):
         return False
+    if isinstance(a, types.FunctionType):
+        # the analysed module and the instrumented module are two executions of the same source
+        return a.__name__ == b.__name__ and a.__code__.co_firstlineno == b.__code__.co_firstlineno
     if isinstance(a, (types.BuiltinMethodType, types.MethodType, types.MethodWrapperType)):
         # bound methods of distinct (but corresponding) receiver objects: same method of the same receiver type
         return getattr(a, "__name__", None) == getattr(b, "__name__", 0) and type(getattr(a, "__self__", None)) is type(getattr(b, "__self__", None))
